@@ -10,6 +10,7 @@ import (
 	"github.com/buildbuildio/pebbles/gqlerrors"
 	"github.com/buildbuildio/pebbles/planner"
 	"github.com/buildbuildio/pebbles/requests"
+	"github.com/buildbuildio/pebbles/simhook"
 	"github.com/gobwas/ws/wsutil"
 )
 
@@ -126,19 +127,27 @@ func (se *subscriptionEntry) prepareResponse(resp *requests.Response) *requests.
 }
 
 func (se *subscriptionEntry) Close() {
+	simhook.Enter("sub.close:" + se.id)
+	defer simhook.Exit()
 	se.TryLock()
 	isClosed := se.isClosed
 	se.Unlock()
 	if isClosed {
 		return
 	}
+	simhook.Yield("sub.close.send")
 	se.closeCh <- struct{}{}
 }
 
 func (se *subscriptionEntry) Listen(conn net.Conn) {
+	simhook.Enter("sub.listen:" + se.id)
+	defer simhook.Exit()
 	defer func() {
+		simhook.Yield("sub.listen.defer")
 		se.queryerCloseCh <- struct{}{}
+		simhook.Yield("sub.listen.queryer-closed")
 		se.Lock()
+		simhook.Yield("sub.listen.locked")
 		defer se.Unlock()
 		close(se.queryerCloseCh)
 		close(se.closeCh)
